@@ -20,6 +20,7 @@ import (
 	"regexp"
 	"sort"
 	"strings"
+	"sync"
 	"syscall"
 
 	"verif/fx"
@@ -27,6 +28,30 @@ import (
 )
 
 func batches(tier string) int { return 16 }
+
+var (
+	reportMu    sync.Mutex
+	reportCount = map[string]int{}
+)
+
+func reported(class string) int {
+	reportMu.Lock()
+	defer reportMu.Unlock()
+	return reportCount[class]
+}
+
+// report counts every violation by class (evidence) and emits at most two witnesses per class and
+// process, so that frequent classes cannot use up the run protocol's per-batch budget and hide rare ones.
+func report(c *run.Ctx, class, msg string, witness interface{}) {
+	c.Stat("violations "+class, 1)
+	reportMu.Lock()
+	reportCount[class]++
+	n := reportCount[class]
+	reportMu.Unlock()
+	if n <= 2 {
+		c.Violation(class, msg, witness)
+	}
+}
 
 const childEnv = "C18_CHILD"
 
@@ -88,15 +113,11 @@ func runSeq(c *run.Ctx) {
 	}
 	n := c.Pick(4800, 96000)
 	lo, hi := c.Share(n)
-	shrunk := 0
 	for i := lo; i < hi; i++ {
 		r := run.NewRng(c.Seed, 1, uint64(i))
 		cs := genSeq(r, i)
 		before := st
-		silent := runSeqCase(c, cs, &st, shrunk < 4)
-		if !silent {
-			shrunk++
-		}
+		runSeqCase(c, cs, &st, true)
 		nb := 0
 		for _, s := range cs.U {
 			if len(s.Subs) > 0 {
@@ -133,6 +154,9 @@ func runSeq(c *run.Ctx) {
 
 func runConc(c *run.Ctx) {
 	var st concStats
+	if c.Batch == 0 {
+		runFixedConc(c, &st)
+	}
 	n := c.Pick(4800, 96000)
 	lo, hi := c.Share(n)
 	for i := lo; i < hi; i++ {
@@ -202,7 +226,7 @@ func runForkChild(c *run.Ctx) {
 	if c.Batch == 0 {
 		runFixedFork(c, &st)
 	}
-	n := c.Pick(80, 1600)
+	n := c.Pick(64, 1280)
 	lo, hi := c.Share(n)
 	for i := lo; i < hi; i++ {
 		if only := os.Getenv("C18_FORK_ONLY"); only != "" && only != fmt.Sprint(i) {
